@@ -86,6 +86,22 @@ def set_after_node_deleted():
     return scn, script, None
 
 
+def set_after_owner_changed():
+    """_safe_create finds its own endpoint node with other content; an
+    administrator unregisters the host's nodes, the other host registers the
+    instance; the update then overwrites the other host's endpoint."""
+    cs = [_container('c0', 0, X, 'hosta', 'aaaaaaaaaaaa1', ports=[('http', 8000, 40001)]),
+          _container('c1', 1, X, 'hosta', 'aaaaaaaaaaaa2', ports=[('http', 8000, 40002)]),
+          _container('c2', 2, X, 'hostb', 'aaaaaaaaaaaa3', ports=[('http', 8000, 40003)])]
+    scn = _scn(cs, [{'id': 'put:c0', 'kind': 'put', 'cid': 'c0'}, {'id': 'put:c1', 'kind': 'put', 'cid': 'c1'},
+                    {'id': 'put:c2', 'kind': 'put', 'cid': 'c2'},
+                    {'id': 'aux0:unreg_all:hosta:c0', 'kind': 'unreg_all', 'cid': 'c0', 'host': 'hosta'}])
+    script = ['act:put:c0', 'req:hosta', 'run:hosta:created:c0', 'act:put:c1', 'req:hosta',
+              'run:hosta:created:c1', 'run:hosta:created:c1', 'run:hosta:created:c1', 'act:aux0',
+              'act:put:c2', 'req:hostb', 'run:hostb:created:c2', 'run:hosta:created:c1']
+    return scn, script, None
+
+
 def wakeup_masked_by_own_node():
     """c1 on hostb waits for hosta's node; the node goes away, c2 on hostb
     registers it before c1's DataWatch re-reads: the callback sees a live node
@@ -102,6 +118,7 @@ def wakeup_masked_by_own_node():
 
 DEMOS = {f.__name__: f for f in (restart_replays_old_after_new, identity_handed_on,
                                  delete_after_owner_changed, set_after_node_deleted,
+                                 set_after_owner_changed,
                                  wakeup_masked_by_own_node)}
 
 
